@@ -263,3 +263,147 @@ func opFile(st *state, args []string) []string {
 	return []string{fmt.Sprintf("res ok failed=[%s] missing=[%s] dup=[%s] junk=%d",
 		strings.Join(failed, ","), strings.Join(missing, ","), strings.Join(dup, ","), junk)}
 }
+
+func init() { ops["filestress"] = opFileStress }
+
+// filestress <workers> <msgs-per-worker> <rotations> <sep-hex>: unscheduled concurrent senders on the real
+// file transport (message sizes from a few bytes to well above 16 KiB), with rename + SIGHUP rotations in
+// between; afterwards every message must be found exactly once, intact and followed by the separator.
+func opFileStress(st *state, args []string) []string {
+	if len(args) != 4 {
+		return []string{"bad-op"}
+	}
+	workers, e1 := strconv.Atoi(args[0])
+	per, e2 := strconv.Atoi(args[1])
+	rots, e3 := strconv.Atoi(args[2])
+	sep, ok := unhex(args[3])
+	if e1 != nil || e2 != nil || e3 != nil || !ok || workers < 1 || workers > 64 || per < 1 || per > 2000 {
+		return []string{"bad-op"}
+	}
+	dir, err := os.MkdirTemp("", "verif-filestress-")
+	if err != nil {
+		return []string{"bad-op"}
+	}
+	defer os.RemoveAll(dir)
+	path := filepath.Join(dir, "out.log")
+	flag.Set("transport.file", path)
+	flag.Set("transport.file.sep", string(sep))
+	reopened := make(chan struct{}, 64)
+	filetr.VerifHook = func(point string) {
+		if point == "file.reopened" {
+			select {
+			case reopened <- struct{}{}:
+			default:
+			}
+		}
+	}
+	defer func() { filetr.VerifHook = nil }()
+	tr, err := transport.FindTransport("file")
+	if err != nil {
+		return []string{resErr(err)}
+	}
+	totals := []int{7, 60, 300, 1500, 4096, 4097, 9000, 16384, 16385, 17000, 20000, 33000}
+	msg := func(w, i int) []byte {
+		total := totals[(w*7+i)%len(totals)]
+		head := fmt.Sprintf("<%d.%d:", w, i)
+		fill := total - len(head) - 1
+		if fill < 0 {
+			fill = 0
+		}
+		return []byte(head + strings.Repeat(string(rune('a'+(w+i)%26)), fill) + ">")
+	}
+	var wg sync.WaitGroup
+	var failed int64
+	var fmu sync.Mutex
+	start := make(chan struct{})
+	for w := 0; w < workers; w++ {
+		wg.Add(1)
+		go func(w int) {
+			defer wg.Done()
+			<-start
+			for i := 0; i < per; i++ {
+				if err := tr.Send(nil, msg(w, i)); err != nil {
+					fmu.Lock()
+					failed++
+					fmu.Unlock()
+				}
+			}
+		}(w)
+	}
+	close(start)
+	rotated := 0
+	for k := 0; k < rots; k++ {
+		time.Sleep(3 * time.Millisecond)
+		if err := os.Rename(path, fmt.Sprintf("%s.%d", path, rotated)); err != nil {
+			continue
+		}
+		rotated++
+		syscall.Kill(os.Getpid(), syscall.SIGHUP)
+		select {
+		case <-reopened:
+		case <-time.After(2 * time.Second):
+		}
+	}
+	wg.Wait()
+	if c, ok := interface{}(tr).(interface{ Close() error }); ok {
+		c.Close()
+	}
+	var all []byte
+	for k := 0; k < rotated; k++ {
+		b, _ := os.ReadFile(fmt.Sprintf("%s.%d", path, k))
+		all = append(all, b...)
+	}
+	b, _ := os.ReadFile(path)
+	all = append(all, b...)
+	re := regexp.MustCompile(`<(\d+)\.(\d+):([a-z]*)>`)
+	count := map[[2]int]int{}
+	junk := 0
+	pos := 0
+	for pos < len(all) {
+		// look at a bounded window only: a unit is at most 33 KB long
+		win := all[pos:]
+		if len(win) > 40000 {
+			win = win[:40000]
+		}
+		loc := re.FindSubmatchIndex(win)
+		if loc == nil || loc[0] != 0 {
+			junk++
+			nx := bytes.IndexByte(all[pos+1:], '<')
+			if nx < 0 {
+				break
+			}
+			pos += 1 + nx
+			continue
+		}
+		w, _ := strconv.Atoi(string(all[pos+loc[2] : pos+loc[3]]))
+		i, _ := strconv.Atoi(string(all[pos+loc[4] : pos+loc[5]]))
+		unit := all[pos : pos+loc[1]]
+		if w >= 0 && w < workers && i >= 0 && i < per && bytes.Equal(unit, msg(w, i)) && bytes.HasPrefix(all[pos+loc[1]:], sep) {
+			count[[2]int{w, i}]++
+			pos += loc[1] + len(sep)
+		} else {
+			junk++
+			nx := bytes.IndexByte(all[pos+1:], '<')
+			if nx < 0 {
+				break
+			}
+			pos += 1 + nx
+		}
+	}
+	missing, dup := 0, 0
+	for w := 0; w < workers; w++ {
+		for i := 0; i < per; i++ {
+			c := count[[2]int{w, i}]
+			if c == 0 {
+				missing++
+			}
+			if c > 1 {
+				dup++
+			}
+		}
+	}
+	if junk > 0 {
+		junk = 1 // how many stray bytes there are depends on the schedule: report only that there are some
+	}
+	return []string{fmt.Sprintf("res ok failed=%d missing=%d dup=%d junk=%d", failed, missing, dup, junk)}
+}
